@@ -646,6 +646,8 @@ class ExtModel:
 
     def _seq_pop(self, interp, st, recv, args, node, how):
         outs = []
+        if how == "pop" and args and not (isinstance(args[0], Const) and args[0].value == -1):
+            how = f"pop[{args[0].value if isinstance(args[0], Const) else '?'}]"
         nonempty = interp.truth(st, recv) is True
         if not nonempty:
             outs.append(self._raise(interp, st.copy(), IndexError, node, f"{unparse(node)[:50]}: sequence not known to be non-empty"))
@@ -1041,7 +1043,10 @@ class ExtModel:
         vt = interp.ty_of(val)
         if vt == "job":
             return Unknown("callable" if i == 0 else "tuple", label=f"job{i}:{val.key()!r}")
-        return Unknown(ty, label=f"unpack{i}:{val.key()!r}:{self._site(interp, st, node)}")
+        u = Unknown(ty, label=f"unpack{i}:{val.key()!r}:{self._site(interp, st, node)}")
+        u.src_elem = elem
+        u.src_list = val
+        return u
 
     def iter_start(self, interp, st, itv, node):
         return None
